@@ -62,10 +62,25 @@ def names_of_call_args(call, fn=None):
     first_used_pos = min([k for k, a in enumerate(call.args) if isinstance(a, ast.Name) and a.id in used] or [0])
     if any(not isinstance(a, (ast.Name, ast.Constant)) for a in call.args[:first_used_pos]):
         return out
+    # an alias of an attribute of self: `t = self.a` in the run, t bound nowhere else and read only as t[<const>] arguments of this
+    # call, nothing but names/constants/such subscripts before its last use: `f(t[0], t[1])` reads what `f(self.a[0], self.a[1])` reads
+    # (subscripting the tuple the attribute holds rebinds nothing)
+    alias = {}
+    for n, v in run.items():
+        if (isinstance(v, ast.Attribute) and isinstance(v.value, ast.Name) and v.value.id == "self" and stores.get(n) == 1):
+            subs = [a for a in call.args if isinstance(a, ast.Subscript) and isinstance(a.value, ast.Name) and a.value.id == n
+                    and isinstance(a.slice, ast.Constant) and isinstance(a.slice.value, int)]
+            if subs and len(subs) == loads.get(n, 0):
+                last = max(k for k, a in enumerate(call.args) if a in subs)
+                simple = lambda a: isinstance(a, (ast.Name, ast.Constant)) or a in subs
+                if all(simple(a) for a in call.args[:last]) and all(isinstance(run[m], (ast.Attribute, ast.Name, ast.Constant)) for m in order[order.index(n) + 1:]):
+                    alias[n] = v
     res = []
     for a in call.args:
         if isinstance(a, ast.Name) and a.id in used:
             res.append(ast.unparse(run[a.id]))
+        elif isinstance(a, ast.Subscript) and isinstance(a.value, ast.Name) and a.value.id in alias:
+            res.append("%s[%d]" % (ast.unparse(alias[a.value.id]), a.slice.value))
         else:
             res.append(ast.unparse(a))
     return res
